@@ -66,6 +66,9 @@ def cases(tier, seed):
     # time-dependent fields: the potential changes every step, slowly and fast, in the shifted gauge too
     for d, shift, ramp in itertools.product(devs[:1] if quick else devs[:2], ((40.0, 25.0), (2.5, -1.5)), (2e-3, 0.5)):
         out.append(dict(fam="run", dev=d, biased=False, screening=False, shift=list(shift), ramp=ramp))
+    # a field switched on from exactly zero (in one gauge the potential is identically zero at t = 0, in the other it is not)
+    for d, scr in itertools.product(devs[:1] if quick else devs[:2], (False, True)):
+        out.append(dict(fam="run", dev=d, biased=False, screening=scr, shift=[2.5, -1.5], ramp=4.0, from_zero=True))
     return out
 
 
@@ -176,10 +179,10 @@ def _shifted_A(x, y, z, *, B, x0, y0):
     return np.stack([-B * (y - y0) / 2, B * (x - x0) / 2, np.zeros_like(x)], axis=1)
 
 
-def _shifted_A_t(x, y, z, *, t, B, x0, y0, rate):
+def _shifted_A_t(x, y, z, *, t, B, x0, y0, rate, B0=None):
     # the field is time dependent, the gauge shift B/2 (y0, -x0) is not (a time-dependent shift would also
     # change mu by a position-dependent amount, which is outside the statement)
-    b = B + rate * t
+    b = (B if B0 is None else B0) + rate * t
     return np.stack([-b * y / 2 + B * y0 / 2, b * x / 2 - B * x0 / 2, np.zeros_like(x)], axis=1)
 
 
@@ -211,7 +214,7 @@ def run_run(case):
 
     def run(x0, y0, tag):
         if case.get("ramp"):
-            A = tdgl.Parameter(_shifted_A_t, time_dependent=True, B=B, x0=x0, y0=y0, rate=case["ramp"])
+            A = tdgl.Parameter(_shifted_A_t, time_dependent=True, B=B, x0=x0, y0=y0, rate=case["ramp"], B0=(0.0 if case.get("from_zero") else None))
         else:
             A = tdgl.Parameter(_shifted_A, B=B, x0=x0, y0=y0)
         # one-frame file of this problem, psi overwritten with exp(i chi), used as the seed
